@@ -97,6 +97,7 @@ class Env:
         self.sm.set(codegen, "time", self.clock)
         self.log = []  # names of intercepted calls, in order
         self.plan = None  # (k, mode, j)
+        self.crash_snapshot = "unset"
         self.sched = None
         self.fds = []
         self.pyc = pyc
@@ -114,18 +115,24 @@ class Env:
                 if p is not None and p[0] == idx:
                     mode = p[1]
                     if mode == "die_before":
+                        env.crash_snapshot = env.module_bytes()
                         raise Die(name)
                     if mode == "error":
                         raise OSError(errno.EACCES if kind == "read" else errno.ENOSPC, "injected fault", name)
                     if mode == "torn":
                         fd, data = a[0], a[1]
                         os.write(fd, data[: p[2]])
+                        env.crash_snapshot = env.module_bytes()
                         raise Die(name)
                     r = fn(*a, **k)
                     if mode == "die_after":
+                        env.crash_snapshot = env.module_bytes()  # what is on disk at the instant of death
                         raise Die(name)
                     return r
-                return fn(*a, **k)
+                r = fn(*a, **k)
+                if env.sched is not None and name == "shutil.move":
+                    env.sched.yield_point(name + ".done")  # another constructor may look right after the move
+                return r
 
             return call
 
@@ -347,11 +354,25 @@ def run_fault(env, init, cur, snap, old, new, plan, st, newproc=True):
     env.clock.now = 1010.0 if init not in ("no-module", "missing-dir") else 1000.0
     env.log = []
     env.plan = plan
+    env.crash_snapshot = "unset"
     outcome = "completed"
     try:
         env.construct()
     except Die:
         outcome = "died"
+        # a dying process runs no cleanup: buffered data of open file objects never reaches the disk.  The state
+        # that counts is the one on disk at the instant of death, not the one after Python unwound the stack.
+        if env.crash_snapshot != "unset":
+            snap_now = env.module_bytes()
+            if snap_now != env.crash_snapshot:
+                if env.crash_snapshot is None:
+                    if os.path.exists(env.modpath):
+                        os.unlink(env.modpath)
+                else:
+                    mt = os.stat(env.modpath).st_mtime if os.path.exists(env.modpath) else env.stamp()
+                    with open(env.modpath, "wb") as f:
+                        f.write(env.crash_snapshot)
+                    os.utime(env.modpath, (mt, mt))
     except BaseException as e:  # noqa
         outcome = "failed:" + type(e).__name__
     finally:
@@ -475,7 +496,7 @@ class HWorld:
             _, v, rel = ev
             base = self.mod["mtime"] if self.mod else e.stamp()
             sec = float(int(base))
-            mt = {"older": base - 1, "equal": base, "newer": base + 1, "samesec-earlier": sec + 0.35, "samesec-later": sec + 0.9}[rel]
+            mt = {"older": base - 1, "equal": base, "newer": base + 1, "samesec-earlier": sec + 0.35, "samesec-later": sec + 0.9, "epoch": 0.0}[rel]
             e.write_src(v, mt)
             self.src = (v, mt)
         elif kind == "rm_module":
@@ -500,8 +521,9 @@ class HWorld:
         elif kind == "touch_module":
             if self.mod:
                 mt = self.src[1] + {"older": -1, "newer": 1}[ev[1]]
-                os.utime(e.modpath, (mt, mt))
-                self.mod["mtime"] = mt
+                if mt >= 0:  # no negative time stamps
+                    os.utime(e.modpath, (mt, mt))
+                    self.mod["mtime"] = mt
         elif kind == "construct":
             if self.mod is None or not self.mod["magic_ok"] or int(self.mod["mtime"]) < int(self.src[1]):
                 due = True
@@ -577,7 +599,7 @@ class HWorld:
 def h_events(cfg):
     ev = [("tick",), ("construct",), ("rm_module",), ("corrupt_module",), ("touch_module", "older"), ("touch_module", "newer")]
     for v in ("A", "B", "C"):
-        for rel in ("older", "equal", "newer") + (("samesec-earlier", "samesec-later") if v == "B" else ()):
+        for rel in ("older", "equal", "newer") + (("samesec-earlier", "samesec-later", "epoch") if v == "B" else ()):
             ev.append(("src", v, rel))
     return ev
 
